@@ -6,6 +6,7 @@ import (
 	"math/rand"
 	"strings"
 	"sync"
+	"unicode/utf8"
 
 	"github.com/ryogrid/SamehadaDB/lib/parser"
 	"github.com/ryogrid/SamehadaDB/lib/types"
@@ -33,7 +34,7 @@ var (
 	apiInts   = []int32{-1, -2, -100, math.MinInt32, math.MinInt32 + 1}
 	sqlFloats = []float32{0, 0.5, 1, 1.5, 2.25, 3, 10.75, 100.125, 16777216, 0.000125}
 	apiFloats = []float32{-0.5, -1, float32(math.Copysign(0, -1)), math.MaxFloat32 / 2, -math.MaxFloat32 / 2, math.SmallestNonzeroFloat32, 1e-40, -3.25}
-	sqlStrs   = []string{"", "a", "ab", "abc", "abd", "b", "A", "Z", "z", "zz", "0", "9", "a b", "S", "Sa", "T", "日本", "é"}
+	sqlStrs   = []string{"", "a", "ab", "abc", "abd", "b", "A", "Z", "z", "zz", "0", "9", "a b", "S", "Sa", "T", "日本", "é", "a  b", " a", "a ", "  ", "a\tb", "x   y z "}
 )
 
 // Sentinels: when true, the in-band sentinel spellings of the engine's Value type (varchar "SamehadaDBInfMinValue" /
@@ -85,7 +86,7 @@ func Value(r *rand.Rand, k rm.Kind, api bool, longStrings bool) rm.Cell {
 			for i := range b {
 				b[i] = "abcxyz019 AZ"[r.Intn(12)]
 			}
-			return rm.Str(strings.TrimSpace(string(b)))
+			return rm.Str(string(b))
 		}
 		return rm.Str(sqlStrs[r.Intn(len(sqlStrs))])
 	}
@@ -138,9 +139,42 @@ var (
 	litCache = map[string]bool{}
 )
 
-// LitAccepted probes the real parser: is the SQL literal form of c read back as a value of the same type and value?
-// This is the property's "literal forms the SQL front end accepts".
+// BaselineLit is the syntactic class of literal forms that the SQL front end of the pinned tree accepts and reads back
+// exactly (probed there for every member of the generators' pools and 100 k random members): unsigned integers,
+// non-negative finite floats below 1e30 in plain or exponent notation, and quoted strings without quote, backslash or
+// NUL characters - whatever blanks, tabs, punctuation or keywords they contain. Values of this class are ALWAYS written
+// as SQL literals, so a front end that starts to misread one of them shows up as a wrong answer / wrong table content.
+func BaselineLit(c rm.Cell) bool {
+	if c.Null {
+		return false
+	}
+	if _, ok := c.SQLLit(); !ok {
+		return false
+	}
+	switch c.K {
+	case rm.KInt:
+		return c.I >= 0
+	case rm.KFloat:
+		return c.F >= 0 && !math.Signbit(float64(c.F)) && c.F < 1e30 && c.F == c.F
+	default:
+		if !utf8.ValidString(c.S) || len(c.S) > 3000 {
+			return false
+		}
+		return !strings.ContainsAny(c.S, "'\\\x00")
+	}
+}
+
+// LitAccepted: is the SQL literal form of c one "the SQL front end accepts" (the property's wording)? Members of the
+// baseline class always are; outside it the real parser is probed (does the literal read back as the same typed value?).
 func LitAccepted(c rm.Cell) bool {
+	if BaselineLit(c) {
+		return true
+	}
+	return LitRoundTrips(c)
+}
+
+// LitRoundTrips probes the real parser: is the SQL literal form of c read back as a value of the same type and value?
+func LitRoundTrips(c rm.Cell) bool {
 	lit, ok := c.SQLLit()
 	if !ok {
 		return false
